@@ -25,3 +25,35 @@ Theorem c15_version_fallback : forall l b1 b2 ps,
   run_polls {| last := l; prio_alpha := b1 |} ps = run_polls {| last := l; prio_alpha := b2 |} ps.
 Proof. exact version_priority_irrelevant. Qed.
 Print Assumptions c15_version_fallback.
+
+(* ---- the poller loop under concurrency (watch / newResolveNow / ResolveNow / Close): any number of ResolveNow callers, a
+   closer, a target whose contract changes at any time, every interleaving (Model/ResolverConc.v) ---- *)
+From GB Require Import Model.ResolverConc Proofs.ResolverConcProofs.
+
+(* a resolve-now request is never lost: whenever a ResolveNow call has returned and no poll has started since the call
+   began, a waiting poller has its resolve-now branch enabled - it cannot stay asleep - also when the call arrived while
+   a poll was in progress *)
+Theorem c15_resolve_now_not_lost : forall timer n c0 s i k, Reach false timer (init n c0) s ->
+  nth_error (callers s) i = Some (CReturned k) -> polls s = k -> pc s = PSelect ->
+  closed s = true /\ exists s', In s' (poller_steps false timer s) /\ pc s' = PRearm.
+Proof. exact resolve_now_not_lost. Qed.
+Print Assumptions c15_resolve_now_not_lost.
+
+(* ... and the poll that follows reads the target's contract as it is then *)
+Theorem c15_next_poll_reads_afresh : forall timer s s' c, pc s = PStart -> In s' (poller_steps false timer s) -> contract s = c -> pc s' = PRead c.
+Proof. exact next_poll_reads_afresh. Qed.
+Print Assumptions c15_next_poll_reads_afresh.
+
+(* no callback after Close has returned *)
+Theorem c15_no_callback_after_close : forall timer n c0 s s', Reach false timer (init n c0) s -> closer_returned s = true ->
+  Reach false timer s s' -> cbs s' = cbs s.
+Proof. exact no_callback_after_close. Qed.
+Print Assumptions c15_no_callback_after_close.
+
+(* the loop with the re-arming moved in front of every wait loses a request that arrives during a poll (witness schedule) *)
+Theorem c15_rearm_always_loses_a_request : exists s,
+  run true false [0; 1; 1; 0]%nat (init 1 7) = Some s /\
+  nth_error (callers s) 0 = Some (CReturned 1) /\ polls s = 1%nat /\ pc s = PSelect /\ closed s = false /\
+  poller_steps true false s = [].
+Proof. exact rearm_always_loses_a_request. Qed.
+Print Assumptions c15_rearm_always_loses_a_request.
